@@ -157,6 +157,24 @@ def pair_check(ax, case, rec):
                 return
         rec.close("stress", relmax(Pa, Pb, sc), 1e-9)
         rec.close("elasticity", relmax(Aa, Ab, sc), 1e-8)
+        import inspect
+
+        if "out" in inspect.signature(a.gradient).parameters:
+            # the way SolidBody calls the hand-coded laws: results of the previous evaluation are handed back as out=
+            F2 = gmat.make_F(np.random.default_rng([case["F"]["fseed"], 5]), batch, (0.7, 1.5), sep=True)
+            s2a, s2b = (None, None) if sva is None else (sva.copy(), svb.copy())
+            bufP, bufA = Pa.copy(), np.array(np.broadcast_to(Aa, (3, 3, 3, 3) + batch)).copy()
+            P2a = np.array(a.gradient([F2.copy(), s2a], out=bufP)[0], float).copy()
+            P2b = np.array(b.gradient([F2.copy(), s2b])[0], float).copy()
+            A2a = np.array(a.hessian([F2.copy(), s2a], out=bufA)[0], float).copy()
+            A2b = np.array(b.hessian([F2.copy(), s2b])[0], float).copy()
+            at_switch = False
+            if sva is not None:
+                W2 = np.asarray(a.material.function([F2.copy(), None])[0], float)
+                at_switch = bool(np.any(np.abs(W2 - sva[0]) < 1e-6 * np.maximum(W2, 1e-12)))
+            if not at_switch:
+                rec.close("stress@reused-out-buffer", relmax(P2a, P2b, sc), 1e-9)
+                rec.close("elasticity@reused-out-buffer", relmax(A2a, np.broadcast_to(A2b, A2a.shape), sc), 1e-8)
     else:
         E, nu = case["E"], case["nu"]
         rng = np.random.default_rng(case["fseed"])
@@ -179,6 +197,14 @@ def pair_check(ax, case, rec):
             rec.close("tensor-notation-elasticity", relmax(np.asarray(TN.hessian([F.copy(), None])[0]).reshape(3, 3, 3, 3, -1)[..., :1], Aa6.reshape(3, 3, 3, 3, -1)[..., :1], sc), 1e-12)
             rec.close("material-strain-stress", relmax(MS.gradient([F.copy(), sv])[0], Pa, sc * case["amp"]), 1e-11)
             rec.close("material-strain-elasticity", relmax(np.broadcast_to(np.asarray(MS.hessian([F.copy(), sv])[0]), (3, 3, 3, 3) + batch), Aa6, sc), 1e-12)
+            # the small-strain framework is incremental (sigma = sigma_n + C : d_eps): after accepted increments with
+            # non-zero volumetric strain the stress at F must still be the total linear-elastic stress
+            svh = np.zeros((18,) + batch)
+            for j in range(2):
+                Fh = I + case["amp"] * np.random.default_rng([case["fseed"], j]).uniform(-1, 1, (3, 3) + batch)
+                svh = np.array(MS.gradient([Fh.copy(), svh])[-1], dtype=float).copy()
+            rec.close("material-strain-stress@history", relmax(MS.gradient([F.copy(), svh.copy()])[0], Pa, sc * case["amp"]), 1e-11)
+            rec.close("material-strain-elasticity@history", relmax(np.broadcast_to(np.asarray(MS.hessian([F.copy(), svh.copy()])[0]), (3, 3, 3, 3) + batch), Aa6, sc), 1e-12)
             # reference: isotropic tangent from the documented moduli
             d = np.eye(3)
             ref = lam * np.einsum("ij,kl->ijkl", d, d) + mu * (np.einsum("ik,jl->ijkl", d, d) + np.einsum("il,jk->ijkl", d, d))
